@@ -9,9 +9,10 @@ SeqsUpTo(S, n) == UNION {[1..k -> S] : k \in 0..n}
 NoFailSeqs(S, n) == SeqsUpTo(S, n)
 \* at most one failing participant
 FailSeqs(n) == {s \in SeqsUpTo(PF, n) : Cardinality({i \in DOMAIN s : s[i].fail}) <= 1}
-Sc(l, p, r, c, k, f) == [loaders |-> l, procs |-> p, runners |-> r, closers |-> c, comps |-> k, initFail |-> f]
+Sc(l, p, r, c, k, f) == [loaders |-> l, procs |-> p, runners |-> r, closers |-> c, comps |-> k, initFail |-> f, cycle |-> FALSE]
+ScC(l, p, r, c, k, f, cy) == [loaders |-> l, procs |-> p, runners |-> r, closers |-> c, comps |-> k, initFail |-> f, cycle |-> cy]
 \* C12: post-processor sequences (every multiset of up to MaxParts participants, in every registration order)
-InitProcs == \E p \in SeqsUpTo(P, MaxParts) : InitWith(Sc(<<>>, p, <<>>, <<>>, 1, 0))
+InitProcs == \E p \in SeqsUpTo(P, MaxParts), cy \in BOOLEAN : InitWith(ScC(<<>>, p, <<>>, <<>>, 1, 0, cy))
 \* C12/C15: loader sequences with at most one failing loader
 InitLoaders == \E l \in FailSeqs(MaxParts) : InitWith(Sc(l, <<>>, <<>>, <<>>, 0, 0))
 \* C13/C09: runners with at most one failing, next to 0-2 components one of which may fail its Init, behind 0-1 loader
